@@ -57,8 +57,8 @@ class Node(NodeBase):
 class EqNode(Node):
     """A "value object": equality by ``eqkey`` (not identity), so that a link
     can be re-assigned a distinct object that compares equal to the old one.
-    The hash stays per object; these nodes are never put into sets or used as
-    dictionary keys."""
+    The hash is the constant of all node classes, so equal nodes are one member
+    of a set."""
     eqkey = Int()
 
     def __eq__(self, other):
@@ -110,7 +110,7 @@ NODE_CLASSES = {"Node": Node, "EqNode": EqNode, "ValuelessNode": ValuelessNode,
 
 class MNode:
     __slots__ = ("uid", "cls", "value", "label", "child", "lazy", "children", "table",
-                 "group", "grid", "extra", "has_extra", "eqkey")
+                 "group", "grid", "extra", "has_extra", "eqkey", "extra_default")
 
     def __init__(self, uid, cls="Node"):
         self.uid = uid
@@ -126,9 +126,10 @@ class MNode:
         self.grid = UNSET
         self.extra = UNSET
         self.has_extra = False
+        self.extra_default = None      # constant default object of the added trait
 
     def __hash__(self):
-        return self.uid * 31 + 7
+        return 7          # constant, as for the objects: same set/dict semantics
 
     def __eq__(self, other):
         # mirrors the objects: identity, or equality by key for "value objects"
@@ -384,7 +385,7 @@ OP_ATTR = {"set_child": "child", "set_lazy": "lazy", "read_lazy": "lazy",
            "set_children": "children", "children_same": "children", "list": "children",
            "set_table": "table", "dict": "table", "set_group": "group", "set": "group",
            "set_grid": "grid", "grid_inner": "grid", "grid_outer": "grid",
-           "set_extra": "extra", "add_trait": "extra", "read": None}
+           "set_extra": "extra", "add_trait": "extra", "read_extra": "extra", "read": None}
 
 
 def inflight_keys(world, op):
@@ -447,6 +448,7 @@ class World:
         self.dropped = []
         self.pending_lazy = None
         self.lazy_enabled = True
+        self.allow_k3 = False
         if sut_on:
             CUR["world"] = self
         classes = classes or []
@@ -476,6 +478,7 @@ class World:
             c = new[uid]
             c.value, c.label, c.has_extra = m.value, m.label, m.has_extra
             c.child, c.lazy, c.extra = mp(m.child), mp(m.lazy), mp(m.extra)
+            c.extra_default = mp(m.extra_default)
             if m.children is not UNSET:
                 c.children = MList(new[x.uid] for x in m.children)
             if m.table is not UNSET:
@@ -493,6 +496,7 @@ class World:
         w.pending_lazy = None
         w.default_cls = self.default_cls
         w.lazy_enabled = self.lazy_enabled
+        w.allow_k3 = self.allow_k3
         w.pinned_uids = set(getattr(self, "pinned_uids", ()))
         return w
 
@@ -645,17 +649,33 @@ class World:
         uid = self.resolve_ref(op["v"])
         newm = None if uid is None else self.model(uid)
         oldm = m.get(name)
+        dflt = m.extra_default if name == "extra" else None
+        if oldm is UNSET and dflt is not None and newm is dflt and not self.allow_k3:
+            # known finding K3: assigning the constant default object itself to a
+            # never-read trait stores it without telling the observers
+            if self.env is not None:
+                self.env.probe("k3-guard-skip")
+            return []
         setattr(m, name, newm)
         newn = old = None
+        nodes_before = len(self.nodes)
         if self.sut_on:
             newn = None if uid is None else self.node(uid)
             old = n.__dict__.get(name, UNSET)
             self._do(step, "N%d.%s = %r" % (m.uid, name, newn), setattr, n, name, newn)
-        if oldm is UNSET:
+        if oldm is UNSET and dflt is not None:
+            # the old value is the constant default object
+            changed, old_val = not (newm is not None and dflt == newm), ("any",)
+        elif oldm is UNSET:
             if name == "lazy":
                 # whether the default method runs to provide 'old' depends on the
                 # presence of listeners; either way the event (if any) reports a change
                 changed, old_val = True, ("any",)
+                if len(self.nodes) > nodes_before:
+                    # the default method did run: the old value is the node it made
+                    # (which a "value object" assigned now may equal)
+                    dm = self.mnodes[-1]
+                    changed = newm is None or not (dm == newm)
             else:
                 changed, old_val = newm is not None, None
         else:
@@ -681,10 +701,32 @@ class World:
         n, m = self._target(op)
         if m.has_extra:
             return []
+        duid = self.resolve_ref(op["dflt"]) if "dflt" in op else None
         m.has_extra = True
+        if duid is not None:
+            # a trait whose *constant* default is an existing observable object
+            # (shared, not created per owner): nothing is stored until it is read
+            m.extra_default = self.model(duid)
         if self.sut_on:
-            self._do(step, "add_trait", n.add_trait, "extra", Instance(NodeBase))
+            tdef = Instance(NodeBase) if duid is None else Any(self.node(duid))
+            self._do(step, "add_trait", n.add_trait, "extra", tdef)
         return [Change("trait_added", mobj=m, obj=n, name="extra", changed=True)]
+
+    def op_read_extra(self, op, step):
+        """First read materialises the (constant) default: silent for handlers,
+        but from then on the default object is reachable along the trait."""
+        n, m = self._target(op)
+        if not m.has_extra:
+            return []
+        if m.extra is UNSET:
+            m.extra = m.extra_default
+        if self.sut_on:
+            v = self._do(step, "reading N%d.extra" % m.uid, getattr, n, "extra")
+            if self.m_of(v) is not m.extra:
+                raise Violation("graph.structure", "N%d.extra reads %r, model %r"
+                                % (m.uid, v, m.extra), step)
+        return [Change("read", mobj=m, obj=n if self.sut_on else None, name="extra",
+                       changed=False)]
 
     def op_read_lazy(self, op, step):
         n, m = self._target(op)
@@ -1038,6 +1080,16 @@ def gen_list_inner(r, npool):
         if keep and sp.get("t") == "ref" and r.random() < 0.7:
             sp["at"] = r.randrange(4)
         return sp
+    if keep and r.random() < 0.3:
+        # one event with the same object on both sides and a different number of
+        # occurrences: lst[i:i+1] = [x, x] (x = lst[i]) or lst[i:i+2] = [x]
+        i = r.choice([0, 0, -1, 1])
+        grow = r.random() < 0.7
+        width = 1 if grow else 2
+        stop = i + width if i + width != 0 and i >= 0 else (None if i + width >= 0 else i + width)
+        return {"k": "setitem_s", "s": [i, stop, None],
+                "vs": [{"t": "ref", "n": r.randrange(npool + 1), "at": i}
+                       for _ in range(r.choice([2, 2, 3]) if grow else 1)]}
     L = list(range(r.choice([0, 1, 2, 2, 3, 4])))     # stand-in for the unknown length
     op = c05.gen_list_op(r, L, item, LIST_KINDS)
     if op["k"] == "remove":
